@@ -20,8 +20,10 @@ RULE = ('contexts: EXH(k) (k=9 quick / 12 thorough) + FAM + WIDE (31..130 wide) 
 EXHAUSTIVE = {'quick': False, 'thorough': False}
 
 
-def observe(cx, tier, seed):
-    ctx = util.make_context(cx)
+def observe(cx, tier, seed, impl=None):
+    if isinstance(impl, Exception):
+        return Case(f'({cx.coq()}, [-1], [])', cx.to_json(), False, [{'Context() raised': repr(impl)}], sig=cx.key())
+    ctx = impl if impl is not None else util.make_context(cx)
     r = random.Random(seed * 1000003 + hash(cx.key()) % 1000003)
     limit = 6 if tier == 'quick' else 10
     queries, subs = [], []
@@ -62,7 +64,9 @@ def observe(cx, tier, seed):
 
 
 def cases(tier, seed):
-    return [observe(cx, tier, seed) for cx in util.contexts_for(tier, seed, rnd_quick=200, rnd_thorough=1500)]
+    ctxs = util.contexts_for(tier, seed, rnd_quick=200, rnd_thorough=1500)
+    impls = util.prebuild(ctxs)
+    return [observe(cx, tier, seed, impl) for cx, impl in zip(ctxs, impls)]
 
 
 def case_from_replay(inp):
